@@ -743,7 +743,8 @@ def getattr_(fr, base, attr, node):
                 key = (repo.class_attr_owner(ci, attr).qualname, attr)
                 cs = I.st.__dict__.setdefault("class_state", {})
                 if key not in cs:
-                    cs[key] = materialise(I, fresh(v))
+                    # a class-level bitarray is a mutable bit buffer of the process (one per analysed path), not a constant list
+                    cs[key] = ABits([cbit(x) for x in v], "ba", getattr(v, "endian", "big")) if isinstance(v, BitArr) else materialise(I, fresh(v))
                 return cs[key]
             if isinstance(v, Rec) and v.cls is not None and repo.find_method(v.cls, "__init__") is not None and not any(d.startswith("dataclass") for d in v.cls.decorators) \
                     and getattr(I, "materialise_records", False):
@@ -977,6 +978,16 @@ def subscript(fr, base, sl, node):
             if isinstance(v, AFin) and any(isinstance(t, _Raises) for t in v.table):
                 exc = [t for t in v.table if isinstance(t, _Raises)][0].exc
                 raise PartialRaise(exc, f"{fr.fi.module.relpath}:{node.lineno}")
+            return v
+    if isinstance(base, (list, tuple)) and isinstance(sl, ast.Slice) and sl.step is None and not any(is_abs(x) for x in base):
+        # a slice of a constant table whose bounds are finite functions of a few input bits (row of a state table selected by
+        # a data-dependent state): the finite function "bounds -> that slice"
+        lo = fr.ev(sl.lower) if sl.lower is not None else None
+        hi = fr.ev(sl.upper) if sl.upper is not None else None
+        if any(isinstance(x, AFin) or (isinstance(x, AInt) and const_of(fr, x) is None) for x in (lo, hi)):
+            v = try_lift(lambda a, b: list(base[a:b]), lo, hi)
+            if v is TOO_WIDE or v is None:
+                raise Abort(f"slice of a table with data-dependent bounds that are too wide at {fr.fi.module.relpath}:{node.lineno}")
             return v
     i = fr.idx(sl)
     if isinstance(i, AOpq):
@@ -1963,6 +1974,33 @@ def external(fr, name, args, kw, n):
         if kw.get("signed"):
             r.signed = True
         return r
+    if name == "numpy.apply_along_axis" and len(args) >= 3 and isinstance(args[2], ATable):
+        # func applied to every 1-D slice along the axis; the results form a NEW array (the input is not written)
+        func, axis, t = args[0], fr.cint(args[1]), args[2]
+        extra = list(args[3:])
+        lines = []
+        if axis in (1, -1):
+            slices = [ABits([t.cells[r][c] for c in range(t.cols)], "np") for r in range(t.rows)]
+        elif axis == 0:
+            slices = [ABits([t.cells[r][c] for r in range(t.rows)], "np") for c in range(t.cols)]
+        else:
+            raise Abort("apply_along_axis: axis of a 2-D table")
+        for sl_ in slices:
+            res = apply(fr, func, [sl_] + extra, dict(kw), n)
+            lines.append(fr.to_bitlist(res))
+        if len({len(x) for x in lines}) != 1:
+            raise Abort("apply_along_axis: results of different lengths")
+        if axis == 0:
+            out = ATable(len(lines[0]), len(lines))
+            for c, col in enumerate(lines):
+                for r, v in enumerate(col):
+                    out.cells[r][c] = v
+        else:
+            out = ATable(len(lines), len(lines[0]))
+            for r, row in enumerate(lines):
+                for c, v in enumerate(row):
+                    out.cells[r][c] = v
+        return out
     if name == "itertools.count":
         start = fr.cint(args[0]) if args else 0
         step = fr.cint(args[1]) if len(args) > 1 else 1
